@@ -34,6 +34,10 @@ Value& STRExpression::value(Context & ctx) const
   Value& val = _args[0]->value(ctx);
   Value v(Value::type_literal);
 
+  /* a table, null or not, is not an argument of this function */
+  if (val.type().level())
+    throw RuntimeError(EXC_RT_FUNC_ARG_TYPE_S, KEYWORDS[FUNC_STR]);
+
   if (!val.isNull())
     switch (val.type().major())
     {
